@@ -212,4 +212,951 @@ class C03(Monitor):
                         self.v("cancel callback count wrong", k, n, want, w.exited.get(k))
 
 
-MONITORS = {"C01": C01, "C02": C02, "C03": C03}
+
+
+def started_of(w, tag):
+    r = w.reqs.get(tag)
+    if r is not None and r.kind == "start":
+        # SimpleTaskPool workers share one function: membership is known through the group only
+        return sorted((r.p, t) for t in w.created.get(tag, ()) if (r.p, t) in w.started)
+    return sorted(k for k, v in w.started.items() if v[0] == tag)
+
+
+def live_of(w, tag):
+    return [k for k in started_of(w, tag) if k not in w.exited]
+
+
+def never_started_cancelled(w, tag):
+    req = w.reqs[tag]
+    return {t for t in w.created.get(tag, ()) if (req.p, t) not in w.started and (req.p, t) in w.cancel_targets}
+
+
+class C04(Monitor):
+    """apply/start: exactly num invocations, right args, own task, in the returned group."""
+
+    PROP = "C04"
+
+    def reqs(self):
+        return [(t, r) for t, r in self.w.reqs.items() if r.kind in ("apply", "start")]
+
+    def sample(self, kind, key, tag):
+        w = self.w
+        if w.dup_keys:
+            self.v("two invocations ran in the same task", w.dup_keys[0])
+        for t, r in self.reqs():
+            n = len(started_of(w, t))
+            if n > r.num or w.calls[t] > r.num:
+                self.v("more invocations than requested", t, n, w.calls[t], r.num)
+        if kind == "w_start" and tag not in w.reqs and key[0] in w.simple_reqs:
+            r = w.simple_reqs[key[0]]
+            _, args, kwargs = w.started[key]
+            eargs = r.args if r.args is not None else ()
+            ekw = r.kwargs if r.kwargs is not None else {}
+            if len(args) != len(eargs) or any(a is not b for a, b in zip(args, eargs)):
+                self.v("invocation received other positional arguments", key, args, eargs)
+            if set(kwargs) != set(ekw) or any(kwargs[k] is not ekw[k] for k in ekw):
+                self.v("invocation received other keyword arguments", key, kwargs, ekw)
+            owners = [t for t, rr in w.reqs.items() if rr.kind == "start" and rr.p == key[0]
+                      and t not in w.group_cancelled and key[1] in w.created.get(t, ())]
+            if len(owners) != 1 and key[0] not in w.closed_pools and not any(
+                    rr.kind == "start" and rr.p == key[0] and t in w.group_cancelled for t, rr in w.reqs.items()):
+                self.v("task of a start() request is not in exactly one start group", key, owners)
+        if kind == "w_start" and tag in w.reqs and w.reqs[tag].kind in ("apply", "start"):
+            r = w.reqs[tag]
+            _, args, kwargs = w.started[key]
+            eargs = r.args if r.args is not None else ()
+            ekw = r.kwargs if r.kwargs is not None else {}
+            if len(args) != len(eargs) or any(a is not b for a, b in zip(args, eargs)):
+                self.v("invocation received other positional arguments", key, args, eargs)
+            if set(kwargs) != set(ekw) or any(kwargs[k] is not ekw[k] for k in ekw):
+                self.v("invocation received other keyword arguments", key, kwargs, ekw)
+            if tag not in w.group_cancelled and key[0] not in w.closed_pools:
+                try:
+                    ids = w.pools[r.p].get_group_ids(r.group)
+                except X.InvalidGroupName:
+                    ids = None
+                if ids is None or key[1] not in ids:
+                    self.v("task of the request is not in the group returned by the call", key, r.group, ids)
+
+    def terminal(self):
+        w = self.w
+        if w.terminated:
+            return
+        for t, r in self.reqs():
+            if t in w.group_cancelled or w.cfg_size[r.p] == 0:
+                continue
+            sk = w.skipped.get(t, ())
+            if r.kind == "start":
+                # one function per SimpleTaskPool: fault cells use a single start() request
+                sk = w.skipped.get(w.simple_reqs[r.p].tag, ())
+            want = r.num - len(sk)
+            n = len(started_of(w, t)) + len(never_started_cancelled(w, t))
+            if n != want:
+                self.v("number of invocations != num", t, n, want)
+            if r.p not in w.closed_pools and r.p not in w.closing:
+                try:
+                    ids = w.pools[r.p].get_group_ids(r.group)
+                except X.InvalidGroupName:
+                    self.v("group of a live request unknown", t, r.group)
+                    continue
+                mine = {k[1] for k in started_of(w, t)} | never_started_cancelled(w, t)
+                if ids != mine:
+                    self.v("group ids != tasks created for the request", t, sorted(ids), sorted(mine))
+
+
+class C05(Monitor):
+    """map family: element-wise, ordered, bounded by num_concurrent, lazy, work-conserving."""
+
+    PROP = "C05"
+
+    def maps(self):
+        return [(t, r) for t, r in self.w.reqs.items() if r.kind == "map"]
+
+    @staticmethod
+    def element_index(r, args, kwargs):
+        """Index of the element a worker received, or None if it has not the right star form."""
+        try:
+            if r.stars == 0:
+                (el,) = args
+                ok = not kwargs
+            elif r.stars == 1:
+                el, p1 = args
+                ok = p1 == "p1" and not kwargs
+            else:
+                ok = not args and set(kwargs) == {"x", "k"} and kwargs["k"] == "v"
+                el = kwargs["x"]
+            if ok and el[0] == "el" and el[1] == r.tag:
+                return el[2]
+        except (ValueError, TypeError, KeyError, IndexError):
+            pass
+        return None
+
+    def sample(self, kind, key, tag):
+        w = self.w
+        for t, r in self.maps():
+            lv = len(live_of(w, t))
+            if lv > r.nc:
+                self.v("more than num_concurrent tasks of one map call running", t, lv, r.nc, kind)
+            if t not in w.group_cancelled and r.p not in w.closed_pools:
+                made = len(w.created.get(t, ())) + len(w.skipped.get(t, ()))
+                if w.pulled[t] > made + 1:
+                    self.v("iterable advanced more than one element ahead", t, w.pulled[t], made, kind)
+        if kind == "w_start" and tag in w.reqs and w.reqs[tag].kind == "map":
+            r = w.reqs[tag]
+            _, args, kwargs = w.started[key]
+            j = self.element_index(r, args, kwargs)
+            if j is None:
+                self.v("worker did not receive an element in the right star form", key, args, kwargs)
+                return
+            for k in started_of(w, tag):
+                if k == key:
+                    continue
+                jk = self.element_index(r, w.started[k][1], w.started[k][2])
+                if jk is None:
+                    continue
+                if (k[1] < key[1]) != (jk < j):
+                    self.v("elements not handed out in iteration order / repeated", tag, (k, jk), (key, j))
+
+    def quiet_idle(self):
+        w = self.w
+        for t, r in self.maps():
+            if t in w.group_cancelled or r.p in w.closed_pools:
+                continue
+            made = len(w.created.get(t, ())) + len(w.skipped.get(t, ()))
+            remain = r.num - made
+            pool = w.pools[r.p]
+            if remain > 0 and not pool.is_full:
+                lv = len(live_of(w, t))
+                if lv != r.nc:
+                    self.v("not work-conserving: elements remain, pool has room, but fewer than num_concurrent run",
+                           t, lv, r.nc, remain)
+
+    def terminal(self):
+        w = self.w
+        if w.terminated:
+            return
+        for t, r in self.maps():
+            if t in w.group_cancelled or w.cfg_size[r.p] == 0:
+                continue
+            bad = w.skipped.get(t, set())
+            got = [self.element_index(r, w.started[k][1], w.started[k][2]) for k in started_of(w, t)]
+            want = [j for j in range(r.num) if j not in bad]
+            gaps = len(never_started_cancelled(w, t))
+            if gaps == 0:
+                if got != want:
+                    self.v("elements processed != elements of the iterable (in order)", t, got, want)
+            else:
+                if len(got) + gaps != len(want) or any(g not in want for g in got) or got != sorted(set(got)):
+                    self.v("elements processed inconsistent with the iterable", t, got, want, gaps)
+            if w.pulled[t] != r.num:
+                self.v("iterable not consumed exactly", t, w.pulled[t], r.num)
+
+
+class C07(Monitor):
+    """cancel_group / cancel_all: complete, contained, group forgotten."""
+
+    PROP = "C07"
+
+    def __init__(self, world):
+        super().__init__(world)
+        self.cut = {}  # tag -> (n started, pulled, live keys at the op)
+        self.before = None
+
+    def __canon__(self):
+        return sorted((t, v[0], v[1], sorted(v[2])) for t, v in self.cut.items())
+
+    def public_obs(self, p):
+        w = self.w
+        pool = w.pools[p]
+        groups = {}
+        for t, r in w.reqs.items():
+            if r.p == p and t not in w.group_cancelled:
+                try:
+                    groups[t] = sorted(pool.get_group_ids(r.group))
+                except X.InvalidGroupName:
+                    groups[t] = None
+        return (pool.num_running, pool.num_cancelled, pool.num_ended, pool.is_locked, pool.is_full, groups,
+                len(w.started), len(w.exited), dict(w.pulled), len(w.loop._ready))
+
+    def before_op(self, i, op):
+        name, pos, opts = split_op(op)
+        p = opts.get("p", 0)
+        self.before = self.public_obs(p)
+        if name in ("cancel_group", "cancel_all"):
+            self.pre_groups = {t: r.group for t, r in self.w.reqs.items() if t not in self.w.group_cancelled}
+
+    def after_op(self, i, op, out):
+        w = self.w
+        name, pos, opts = split_op(op)
+        p = opts.get("p", 0)
+        if name == "cancel_group" and pos[0].startswith("?"):
+            if not w.raised(out, X.InvalidGroupName):
+                self.v("cancel_group(unknown name) did not raise InvalidGroupName", out)
+            if self.public_obs(p) != self.before:
+                self.v("cancel_group(unknown name) changed the pool", self.before, self.public_obs(p))
+            return
+        if name not in ("cancel_group", "cancel_all"):
+            if name in ("apply", "map", "start") and opts.get("reuse") and out[0] != "ok":
+                self.v("name of a cancelled group cannot be re-used", op, out)
+            return
+        if out[0] != "ok":
+            self.v(f"{name} raised", out)
+            return
+        tags = [pos[0]] if name == "cancel_group" else [t for t in self.pre_groups if w.reqs[t].p == p]
+        for t in tags:
+            if t in self.cut:
+                continue
+            self.cut[t] = (len(started_of(w, t)), w.pulled[t], set(live_of(w, t)))
+            try:
+                ids = w.pools[p].get_group_ids(self.pre_groups[t])
+                self.v("cancelled group still reported by get_group_ids", t, sorted(ids))
+            except X.InvalidGroupName:
+                pass
+
+    def sample(self, kind, key, tag):
+        w = self.w
+        for t, (n, pulled, _) in self.cut.items():
+            if len(started_of(w, t)) != n:
+                self.v("a task of a cancelled group started afterwards", t, len(started_of(w, t)), n, kind)
+            if w.pulled[t] != pulled:
+                self.v("argument iterable of a cancelled group advanced afterwards", t, w.pulled[t], pulled, kind)
+        if kind == "w_cancel":
+            if tag not in w.group_cancelled and key not in w.cancel_targets:
+                self.v("task of an untouched group observed a cancellation", key, tag)
+
+    def quiet_idle(self):
+        w = self.w
+        for t, (n, pulled, live) in self.cut.items():
+            for k in live:
+                if k not in w.exited:
+                    self.v("task of a cancelled group still running at the next quiet idle", k)
+                elif w.cancel_seen[k] < 1:
+                    self.v("suspended task of a cancelled group saw no CancelledError", k, w.exited[k])
+            for k in started_of(w, t):
+                if k not in w.exited:
+                    self.v("task of a cancelled group still running at quiet idle", k)
+
+
+class C08(Monitor):
+    """gather_and_close waits for everything, then closes for good."""
+
+    PROP = "C08"
+
+    def failing_possible(self):
+        w = self.w
+        if any(h == "exc" for h in w.exited.values()):
+            return True
+        kinds = {w.scen.get("ecb", "none"), w.scen.get("ccb", "none")}
+        for r in w.reqs.values():
+            kinds |= {r.opts.get("ecb", "none"), r.opts.get("ccb", "none")} if r.opts else set()
+        return bool(kinds & {"raise", "araise"})
+
+    def driver_done(self, i, op, out):
+        w = self.w
+        name, pos, opts = split_op(op)
+        p = opts.get("p", 0)
+        pool = w.pools[p]
+        if name == "gac":
+            if out[0] == "ok":
+                if w.live[p]:
+                    self.v("gather_and_close returned while workers are still running", p, w.live[p])
+                for t, r in w.reqs.items():
+                    if r.p != p or t in w.group_cancelled:
+                        continue
+                    made = len(w.created.get(t, ())) + len(w.skipped.get(t, ()))
+                    if made != r.num:
+                        self.v("gather_and_close returned before a request was fully spawned", t, made, r.num)
+                    if r.kind == "map" and w.pulled[t] != r.num:
+                        self.v("gather_and_close returned before the iterable was consumed", t, w.pulled[t], r.num)
+                got = (pool.num_running, pool.num_cancelled, pool.num_ended)
+                if got != (0, 0, 0):
+                    self.v("closed pool still holds tasks", p, got)
+                if w.cb_open:
+                    self.v("gather_and_close returned while a callback is still in progress", w.cb_open)
+            elif not self.failing_possible() or out[1] == "CancelledError":
+                self.v("gather_and_close raised although no task or callback raised", out)
+        if name == "until_closed":
+            if p not in w.closed_pools and not self.gac_failed(p):
+                self.v("until_closed() released before the pool was closed", p)
+
+    def gac_failed(self, p):
+        # a gather_and_close that raised leaves the pool state undefined by the property
+        w = self.w
+        for (i, pc), out in w.results.items():
+            op = w.scen["actors"][i][pc]
+            if op[0] == "gac" and split_op(op)[2].get("p", 0) == p and out[0] == "raised":
+                return True
+        return False
+
+    def after_op(self, i, op, out):
+        w = self.w
+        name, pos, opts = split_op(op)
+        p = opts.get("p", 0)
+        if name in ("apply", "map", "start") and p in w.closed_pools:
+            if not w.raised(out, X.PoolIsClosed):
+                self.v("spawn request on a closed pool did not raise PoolIsClosed", op, out)
+
+    def quiet_idle(self):
+        w = self.w
+        for i, t in w.drivers.items():
+            op = w.scen["actors"][i][w.pcs[i] - 1]
+            name, pos, opts = split_op(op)
+            if name == "until_closed" and opts.get("p", 0) in w.closed_pools and not t.done():
+                self.v("until_closed() still waiting at idle after the pool was closed", i)
+
+    def terminal(self):
+        w = self.w
+        if w.terminated:
+            return
+        for i, t in w.drivers.items():
+            op = w.scen["actors"][i][w.pcs[i] - 1]
+            name, pos, opts = split_op(op)
+            if name == "gac" and not t.done() and w.cfg_size[opts.get("p", 0)] != 0:
+                self.v("gather_and_close never returns although all work finished", i)
+
+
+
+import itertools
+import re
+
+
+class C06(Monitor):
+    """cancel(*ids): exact and all-or-nothing; evaluated as a terminal branch at every boundary."""
+
+    PROP = "C06"
+
+    def probe_cancel(self, p, maxlen=2):
+        w = self.w
+        pool = w.pools[p]
+        created = sorted(w.all_created(p))
+        never = (max(created) if created else 0) + 7
+        state = {}
+        pending = {t_.get_name() for t_ in w.loop.live_tasks()}
+        for t in created:
+            k = (p, t)
+            if k in w.started and k not in w.exited:
+                state[t] = "running"
+            elif k in w.exited:
+                state[t] = w.classify(k)
+            elif k not in w.cancel_targets:
+                state[t] = "running"
+            elif f"{pool}_Task-{t}" not in pending:
+                state[t] = w.classify(k)
+            # else: created, never started, cancellation pending: state not observable without
+            # disturbing it -> not part of the alphabet in this state
+        state[never] = "unknown"
+        ids = sorted(state)
+        tuples = [tp for n in range(1, maxlen + 1) for tp in itertools.product(ids, repeat=n)]
+        ch = w.ctl.choose(len(tuples), free=True)
+        tup = tuples[ch]
+        w.ctl.actions.append(f"  cancel{tup} in state {state}")
+        seen0 = dict(w.cancel_seen)
+        started0 = set(w.started)
+        live0 = {k for k in w.started if k not in w.exited}
+        earlier = set(w.cancel_targets)
+        try:
+            pool.cancel(*tup)
+            out = "ok"
+        except X.AlreadyCancelled:
+            out = "cancelled"
+        except X.AlreadyEnded:
+            out = "ended"
+        except X.InvalidTaskID:
+            out = "unknown"
+        except Exception as e:
+            out = "other:" + type(e).__name__
+        w.probing = True  # the monitors of other properties do not apply to the probe's aftermath
+        w.loop.run_idle()
+        w.probing = False
+        offending = [state[t] for t in tup if state[t] != "running"]
+        delta = {k: w.cancel_seen[k] - seen0.get(k, 0) for k in set(w.cancel_seen) | live0}
+        targets = {(p, t) for t in tup}
+        if not offending:
+            if out != "ok":
+                self.v("cancel() of running tasks raised", tup, out, state)
+            for k in targets:
+                if k in live0:
+                    if delta.get(k, 0) != 1:
+                        self.v("cancelled task did not observe exactly one CancelledError", k, delta.get(k, 0), tup)
+                elif k not in started0 and k in w.started:
+                    self.v("task cancelled before its first step began anyway", k, tup)
+            for k, d in delta.items():
+                if k not in targets and d and k not in earlier:
+                    self.v("cancel() disturbed a task that was not named", k, tup)
+        else:
+            if out not in set(offending):
+                self.v("cancel() with a non-running id: wrong/no error", tup, out, offending, state)
+            for k, d in delta.items():
+                if d and k not in earlier:
+                    self.v("cancel() raised but cancelled something anyway", k, tup, out)
+
+
+class C09(Monitor):
+    """rejected requests leave no trace; lock/unlock gate and are idempotent (terminal branch)."""
+
+    PROP = "C09"
+    CAUSES = ("locked", "plainfunc", "nc0", "ncneg", "dupname")
+    ERR = {
+        "locked": X.PoolIsLocked,
+        "closed": X.PoolIsClosed,
+        "plainfunc": X.NotCoroutineFunction,
+        "nc0": ValueError,
+        "ncneg": ValueError,
+        "dupname": X.TaskGroupAlreadyExists,
+        "negsize": ValueError,
+    }
+
+    def obs(self, p):
+        w = self.w
+        pool = w.pools[p]
+        groups = {}
+        for t, r in w.reqs.items():
+            if r.p == p and t not in w.group_cancelled:
+                try:
+                    groups[t] = sorted(pool.get_group_ids(r.group))
+                except X.InvalidGroupName:
+                    groups[t] = None
+        return (pool.num_running, pool.num_cancelled, pool.num_ended, pool.is_full, pool.pool_size, groups,
+                len(w.started), len(w.exited), dict(w.pulled), dict(w.calls), len(w.loop._ready), str(pool))
+
+    def alternatives(self, p):
+        w = self.w
+        pool = w.pools[p]
+        simple = type(pool).__name__ == "SimpleTaskPool"
+        live_names = [r.group for t, r in w.reqs.items() if r.p == p and t not in w.group_cancelled]
+        alts = []
+        methods = ["start"] if simple else ["apply", "map", "starmap", "doublestarmap"]
+        for m in methods:
+            avail = ["locked"]
+            if not simple:
+                avail.append("plainfunc")
+                if m != "apply":
+                    avail += ["nc0", "ncneg"]
+                if live_names:
+                    avail.append("dupname")
+            for n in range(0, len(avail) + 1):
+                for sub in itertools.combinations(avail, n):
+                    if "nc0" in sub and "ncneg" in sub:
+                        continue
+                    alts.append((m, sub))
+        alts += [("set_size_neg", ()), ("ctor_neg", ()), ("locklock", ()), ("unlockunlock", ())]
+        return alts
+
+    def probe_reject(self, p, *a):
+        w = self.w
+        pool = w.pools[p]
+        closed = p in w.closed_pools
+        alts = self.alternatives(p)
+        ch = w.ctl.choose(len(alts), free=True)
+        m, sub = alts[ch]
+        w.ctl.actions.append(f"  rejected-request probe {m} causes={sub} closed={closed} locked={pool.is_locked}")
+        was_idle = w.idle()
+        if m == "locklock":
+            pool.lock(); pool.lock()
+            if not pool.is_locked:
+                self.v("lock();lock() leaves the pool unlocked")
+            sub = ("locked",)
+            m = "start" if type(pool).__name__ == "SimpleTaskPool" else "apply"
+        elif m == "unlockunlock":
+            pool.unlock(); pool.unlock()
+            if pool.is_locked:
+                self.v("unlock();unlock() leaves the pool locked")
+            if closed:
+                return
+            # unlock() restores normal acceptance
+            n0 = len(w.started)
+            w.probing = True
+            try:
+                if type(pool).__name__ == "SimpleTaskPool":
+                    pool.start(1)
+                else:
+                    pool.apply(w._make_worker("probe", "plain"), num=1)
+            except Exception as e:
+                self.v("request after unlock() rejected", type(e).__name__)
+            w.probing = False
+            return
+        if m == "set_size_neg":
+            before = self.obs(p)
+            try:
+                pool.pool_size = -1
+                self.v("pool_size = -1 accepted")
+            except ValueError:
+                pass
+            except Exception as e:
+                self.v("pool_size = -1 raised something else", type(e).__name__)
+            if self.obs(p) != before:
+                self.v("rejected pool_size assignment changed the pool", before, self.obs(p))
+            return
+        if m == "ctor_neg":
+            from asyncio_taskpool import TaskPool
+
+            before = self.obs(p)
+            try:
+                TaskPool(pool_size=-1)
+                self.v("TaskPool(pool_size=-1) accepted")
+            except ValueError:
+                pass
+            except Exception as e:
+                self.v("TaskPool(pool_size=-1) raised something else", type(e).__name__)
+            if self.obs(p) != before:
+                self.v("rejected constructor changed another pool", before, self.obs(p))
+            return
+        if "locked" in sub:
+            pool.lock()
+        causes = set(sub)
+        if pool.is_locked:
+            causes.add("locked")
+        if closed:
+            causes.add("closed")
+        tag = "rej"
+        calls = [0]
+
+        def plain(*a_, **k_):
+            calls[0] += 1
+
+        func = plain if "plainfunc" in sub else w._make_func(tag, "plain", [])
+        pulled0 = w.pulled[tag]
+        kw = {}
+        if "dupname" in sub:
+            kw["group_name"] = [r.group for t, r in w.reqs.items() if r.p == p and t not in w.group_cancelled][0]
+        nc = 0 if "nc0" in sub else (-1 if "ncneg" in sub else 1)
+        from .poolworld import Req
+
+        req = Req(tag=tag, kind="map", p=p, num=2, nc=1, stars={"map": 0, "starmap": 1, "doublestarmap": 2}.get(m, 0))
+        before = self.obs(p)
+        exc = None
+        try:
+            if m == "apply":
+                pool.apply(func, args=(1,), num=2, **kw)
+            elif m == "start":
+                pool.start(2)
+            else:
+                getattr(pool, m)(func, w._make_iter(req), num_concurrent=nc, **kw)
+        except Exception as e:
+            exc = e
+        after = self.obs(p)
+        if not causes:
+            # no cause of rejection: the request must be accepted (sanity, keeps the probe honest)
+            if exc is not None:
+                self.v("request without any cause of rejection was rejected", m, type(exc).__name__)
+            return
+        if exc is None:
+            self.v("request that must be rejected was accepted", m, sorted(causes))
+            return
+        if not any(isinstance(exc, self.ERR[c]) for c in causes):
+            self.v("rejected with an error whose cause is not present", m, sorted(causes), type(exc).__name__)
+        if after != before:
+            self.v("rejected request left a trace", m, sorted(causes), before, after)
+        if w.pulled[tag] != pulled0 or w.calls[tag] or calls[0]:
+            self.v("rejected request touched the iterable / called func", m, sorted(causes), w.pulled[tag], w.calls[tag], calls[0])
+        if was_idle:
+            n0 = (len(w.started), dict(w.pulled), dict(w.calls))
+            w.loop.run_idle()
+            if (len(w.started), dict(w.pulled), dict(w.calls)) != n0 or calls[0]:
+                self.v("something started after a rejected request", m, sorted(causes))
+
+
+NAME_RE = re.compile(r"^(apply|map|starmap|doublestarmap)-work-group-(\d+)$")
+START_RE = re.compile(r"^start-group-(\d+)$")
+
+
+class C10(Monitor):
+    """groups partition the tasks; names unique, fresh and of the documented form."""
+
+    PROP = "C10"
+
+    def __init__(self, world):
+        super().__init__(world)
+        self.live_before = None
+
+    def live_groups(self, p):
+        w = self.w
+        return {t: r.group for t, r in w.reqs.items() if r.p == p and t not in w.group_cancelled and p not in w.closed_pools}
+
+    def before_op(self, i, op):
+        name, pos, opts = split_op(op)
+        self.live_before = set(self.live_groups(opts.get("p", 0)).values())
+
+    def after_op(self, i, op, out):
+        w = self.w
+        name, pos, opts = split_op(op)
+        if name not in ("apply", "map", "start") or out[0] != "ok":
+            if name in ("apply", "map") and opts.get("name") in (self.live_before or ()) and out[0] == "ok":
+                self.v("duplicate group name accepted", op)
+            return
+        g = out[1]
+        if opts.get("name") is not None:
+            if g != opts["name"]:
+                self.v("explicit group name not returned", op, g)
+            return
+        if g in self.live_before:
+            self.v("generated group name collides with a live group", g)
+        if name == "start":
+            if not START_RE.match(g):
+                self.v("generated name not of the form start-group-<i>", g)
+        else:
+            m = NAME_RE.match(g)
+            meth = "apply" if name == "apply" else ("map", "starmap", "doublestarmap")[opts.get("stars", 0)]
+            if not m or m.group(1) != meth:
+                self.v("generated name not of the form <method>-<func>-group-<i>", g, meth)
+
+    def sample(self, kind, key, tag):
+        w = self.w
+        if kind == "w_start" and tag in w.reqs and tag not in w.group_cancelled and key[0] not in w.closed_pools:
+            p = key[0]
+            for t, g in self.live_groups(p).items():
+                try:
+                    ids = w.pools[p].get_group_ids(g)
+                except X.InvalidGroupName:
+                    self.v("live group unknown", t, g)
+                    continue
+                if (key[1] in ids) != (t == tag):
+                    self.v("task is not in exactly the group of the call that requested it", key, tag, t, sorted(ids))
+
+    def idle(self):
+        w = self.w
+        for p in pools_of(w):
+            pool = w.pools[p]
+            lg = self.live_groups(p)
+            sets = {}
+            for t, g in lg.items():
+                try:
+                    ids = pool.get_group_ids(g)
+                except X.InvalidGroupName:
+                    self.v("live group unknown", t, g)
+                    continue
+                mine = {k[1] for k in started_of(w, t)} | never_started_cancelled(w, t)
+                if ids != mine:
+                    self.v("get_group_ids != ids of the tasks created for the group", t, sorted(ids), sorted(mine))
+                sets[t] = ids
+            tags = sorted(sets)
+            for a in range(len(tags)):
+                for b in range(a + 1, len(tags)):
+                    if sets[tags[a]] & sets[tags[b]]:
+                        self.v("two live groups share a task id", tags[a], tags[b])
+                    u = pool.get_group_ids(lg[tags[a]], lg[tags[b]])
+                    if u != sets[tags[a]] | sets[tags[b]]:
+                        self.v("get_group_ids(a, b) is not the union", tags[a], tags[b])
+            if p not in w.closed_pools:
+                try:
+                    pool.get_group_ids("no-such-group")
+                    self.v("unknown group name did not raise")
+                except X.InvalidGroupName:
+                    pass
+                for t in w.group_cancelled:
+                    r = w.reqs[t]
+                    if r.p == p and r.group not in lg.values():
+                        try:
+                            pool.get_group_ids(r.group)
+                            self.v("cancelled group still known", t)
+                        except X.InvalidGroupName:
+                            pass
+
+
+class C11(Monitor):
+    """ids dense, ordered, never reused, visible in task names; pools independent."""
+
+    PROP = "C11"
+
+    def __init__(self, world):
+        super().__init__(world)
+        self.next = [0] * len(world.pools)
+        names = [str(p) for p in world.pools]
+        if len(set(names)) != len(names):
+            self.v("two pools have the same name", names)
+
+    def __canon__(self):
+        return tuple(self.next)
+
+    def sample(self, kind, key, tag):
+        w = self.w
+        if w.bad_names:
+            self.v("task name not of the form <pool>_Task-<id>", w.bad_names[0])
+        if w.dup_keys:
+            self.v("task id used twice", w.dup_keys[0])
+        if w.cb_mismatch:
+            self.v("id passed to a callback != id in the task's name", w.cb_mismatch[0])
+        for p in pools_of(w):
+            ids = w.all_created(p)
+            new = sorted(t for t in ids if t >= self.next[p])
+            if new:
+                if new != list(range(self.next[p], self.next[p] + len(new))):
+                    self.v("task ids not dense / not starting where the last one ended", p, self.next[p], new)
+                self.next[p] = max(new) + 1
+            if any(t < 0 for t in ids):
+                self.v("negative id", p)
+        if kind == "w_start":
+            p = key[0]
+            for k, o in w.start_order.items():
+                if k[0] == p and k != key and (k[1] < key[1]) != (o < w.start_order[key]):
+                    self.v("tasks did not start in id (creation) order", k, key)
+            if w.task_names[key] != f"{w.pools[p]}_Task-{key[1]}":
+                self.v("task name mismatch", key, w.task_names[key])
+
+
+class C12(Monitor):
+    """what flush()/gather_and_close() raise is an exception injected into some task, or nothing."""
+
+    PROP = "C12"
+
+    def driver_done(self, i, op, out):
+        w = self.w
+        name, pos, opts = split_op(op)
+        if name not in ("flush", "gac"):
+            return
+        re_ = bool(pos and pos[0])
+        if out[0] == "ok":
+            return
+        if re_:
+            self.v(f"{name}(return_exceptions=True) raised", out)
+            return
+        tag = out[2] if len(out) > 2 else None
+        if out[1] not in ("WorkerError", "CbError") or tag is None:
+            self.v(f"{name}() raised an exception that no task or callback raised", out)
+            return
+        if tag[0] == "worker" and not any(h == "exc" for k, h in w.exited.items() if w.started[k][0] == tag[1]):
+            self.v(f"{name}() raised a worker error although no worker of that request failed", out)
+
+
+class C13(Monitor):
+    """flush forgets finished tasks only."""
+
+    PROP = "C13"
+
+    def __init__(self, world):
+        super().__init__(world)
+        self.fin = {}  # (actor, pc) -> ids finished before that flush was called
+
+    def __canon__(self):
+        return sorted((k, sorted(v)) for k, v in self.fin.items())
+
+    def cb_pending(self, k):
+        w = self.w
+        return any(w.cb_begun[(wh, k)] > w.cb_done[(wh, k)] for wh in ("ecb", "ccb"))
+
+    def finished(self, k):
+        """Harness view: worker exited and every callback configured for it has completed."""
+        w = self.w
+        if k not in w.exited or self.cb_pending(k):
+            return False
+        tag = w.started[k][0]
+        r = w.reqs.get(tag) or w.simple_reqs.get(k[0])
+        if r is not None and r.kind == "start":
+            spec = w.scen["pools"][k[0]]
+            ek, ck = spec.get("ecb", w.scen.get("ecb", "none")), spec.get("ccb", w.scen.get("ccb", "none"))
+        else:
+            o = (r.opts or {}) if r is not None else {}
+            ek, ck = o.get("ecb", w.scen.get("ecb", "none")), o.get("ccb", w.scen.get("ccb", "none"))
+        if ek != "none" and w.cb_done[("ecb", k)] < 1:
+            return False
+        if ck != "none" and w.exited[k] == "cancelled" and w.cb_done[("ccb", k)] < 1:
+            return False
+        return True
+
+    def before_op(self, i, op):
+        w = self.w
+        name, pos, opts = split_op(op)
+        if name == "flush":
+            p = opts.get("p", 0)
+            self.fin[(i, w.pcs[i] - 1)] = {k for k in w.started if k[0] == p and self.finished(k)}
+
+    def driver_done(self, i, op, out):
+        w = self.w
+        name, pos, opts = split_op(op)
+        if name != "flush":
+            return
+        pc = w.pcs[i] - 1
+        if pos and pos[0] and out[0] != "ok":
+            self.v("flush(return_exceptions=True) raised", out)
+        for k in sorted(self.fin.pop((i, pc), ())):
+            c = w.classify(k)
+            if c != "unknown":
+                self.v("task finished before flush() is still remembered after it returned", k, c)
+
+    def sample(self, kind, key, tag):
+        w = self.w
+        for k in w.exited:
+            if self.cb_pending(k) and k[0] not in w.closed_pools:
+                c = w.classify(k)
+                if c == "unknown":
+                    self.v("task inside its callbacks was forgotten", k, kind)
+        for p in pools_of(w):
+            if p in w.closed_pools:
+                continue
+            if w.pools[p].num_running < w.live[p]:
+                self.v("running task no longer counted", p, w.pools[p].num_running, w.live[p], kind)
+
+    def terminal(self):
+        w = self.w
+        if w.terminated:
+            return
+        for i, t in w.drivers.items():
+            op = w.scen["actors"][i][w.pcs[i] - 1]
+            if op[0] == "flush" and not t.done():
+                self.v("flush() never returns", i)
+
+
+class C14(Monitor):
+    """SimpleTaskPool.stop: LIFO and exact."""
+
+    PROP = "C14"
+
+    def __init__(self, world):
+        super().__init__(world)
+        self.expected = set()
+        self.exp = None
+
+    def __canon__(self):
+        return sorted(self.expected)
+
+    def running_ids(self, p):
+        w = self.w
+        pending = {t_.get_name() for t_ in w.loop.live_tasks()}
+        out = []
+        for t in w.all_created(p):
+            k = (p, t)
+            if k in w.exited:
+                continue
+            if k not in w.started and f"{w.pools[p]}_Task-{t}" not in pending:
+                continue  # cancelled before its first step and already through
+            out.append(t)
+        return sorted(out, reverse=True)
+
+    def before_op(self, i, op):
+        name, pos, opts = split_op(op)
+        p = opts.get("p", 0)
+        if name == "stop":
+            self.exp = self.running_ids(p)[: max(0, pos[0])]
+        elif name == "stop_all":
+            self.exp = self.running_ids(p)
+        elif name == "cancel":
+            self.expected.update((p, self.w.resolve_id(s)) for s in pos)
+
+    def after_op(self, i, op, out):
+        name, pos, opts = split_op(op)
+        p = opts.get("p", 0)
+        if name in ("stop", "stop_all"):
+            if out[0] != "ok":
+                self.v(f"{name} raised", out)
+                return
+            if list(out[1]) != self.exp:
+                self.v(f"{name} did not return the most recently started running tasks, newest first", list(out[1]), self.exp)
+            self.expected.update((p, t) for t in self.exp)
+
+    def sample(self, kind, key, tag):
+        if kind == "w_cancel" and key not in self.expected:
+            self.v("a task that was not stopped observed a cancellation", key)
+
+    def quiet_idle(self):
+        w = self.w
+        for k in self.expected:
+            if k in w.started and k not in w.exited:
+                self.v("stopped task still running at quiet idle", k)
+            if k in w.exited and w.cancel_seen[k] < 1 and w.exited[k] == "ret" and False:
+                pass
+
+
+class C15(Monitor):
+    """pool_size reports and enforces the configured maximum when changed."""
+
+    PROP = "C15"
+
+    def __init__(self, world):
+        super().__init__(world)
+        self.before = None
+
+    def sample(self, kind, key, tag):
+        w = self.w
+        for p in pools_of(w):
+            ps = w.pools[p].pool_size
+            if ps != w.cfg_size[p]:
+                self.v("pool_size does not report the configured maximum", p, ps, w.cfg_size[p], w.live[p], kind)
+        if kind == "w_start":
+            p = key[0]
+            if w.live[p] > w.cfg_size[p]:
+                self.v("task admitted although the running count is not below the limit in force", p, w.live[p], w.cfg_size[p])
+        if kind == "w_cancel" and key not in w.cancel_targets and tag not in w.group_cancelled:
+            self.v("resizing cancelled a running task", key)
+
+    def before_op(self, i, op):
+        w = self.w
+        name, pos, opts = split_op(op)
+        if name == "set_size":
+            p = opts.get("p", 0)
+            self.before = (w.pools[p].pool_size, w.pools[p].num_running, w.live[p], len(w.started))
+
+    def after_op(self, i, op, out):
+        w = self.w
+        name, pos, opts = split_op(op)
+        if name != "set_size":
+            return
+        p = opts.get("p", 0)
+        if pos[0] == -1:
+            if not w.raised(out, ValueError):
+                self.v("negative pool size did not raise ValueError", out)
+            now = (w.pools[p].pool_size, w.pools[p].num_running, w.live[p], len(w.started))
+            if now != self.before:
+                self.v("rejected pool_size assignment changed something", self.before, now)
+        elif out[0] != "ok":
+            self.v("valid pool_size assignment raised", out)
+
+    def quiet_idle(self):
+        w = self.w
+        for p in pools_of(w):
+            if p in w.closing:
+                continue
+            demand = 0
+            for t, r in w.reqs.items():
+                if r.p != p or t in w.group_cancelled:
+                    continue
+                made = len(w.created.get(t, ())) + len(w.skipped.get(t, ()))
+                rem = r.num - made
+                if r.kind == "map":
+                    rem = min(rem, r.nc - len(live_of(w, t)))
+                demand += max(0, rem)
+            if demand > 0 and w.live[p] < w.cfg_size[p]:
+                self.v("tasks waiting for room although the running count is below the limit in force",
+                       p, w.live[p], w.cfg_size[p], demand)
+
+
+MONITORS = {c.PROP: c for c in (C01, C02, C03, C04, C05, C06, C07, C08, C09, C10, C11, C12, C13, C14, C15)}
